@@ -61,8 +61,8 @@ def HSt.core (s : HSt) : List Bool × List Bool × List Bool × Nat × List Nat 
 theorem wpte_eraseH (s t : HSt) (h : s.core = t.core) :
     (writeParentTagEnd s).1.core = (writeParentTagEnd t).1.core ∧
     eraseH (writeParentTagEnd s).2 = (writeParentTagEnd t).2 := by
-  obtain ⟨s1, s2, s3, s4, s5, s6, s7, s8, s9, s10, s11, s12, s13⟩ := s
-  obtain ⟨t1, t2, t3, t4, t5, t6, t7, t8, t9, t10, t11, t12, t13⟩ := t
+  obtain ⟨s1, s2, s3, s4, s5, s6, s7, s8, s9, s10, s11, s12, s13, s14⟩ := s
+  obtain ⟨t1, t2, t3, t4, t5, t6, t7, t8, t9, t10, t11, t12, t13, t14⟩ := t
   simp only [HSt.core, Prod.mk.injEq] at h
   obtain ⟨rfl, rfl, rfl, rfl, rfl, rfl⟩ := h
   unfold writeParentTagEnd
@@ -171,8 +171,8 @@ end mb
 def SameButIndent (c1 c2 : HtmlCfg) : Prop :=
   c2 = { c1 with doIndent := c2.doIndent, indent := c2.indent }
 
-theorem step_eraseH (c1 c2 : HtmlCfg) (hc : SameButIndent c1 c2) (s t : HSt) (e : Ev) (h : s.core = t.core) :
-    (step c1 s e).1.core = (step c2 t e).1.core ∧ eraseH (step c1 s e).2 = eraseH (step c2 t e).2 := by
+theorem stepCore_eraseH (c1 c2 : HtmlCfg) (hc : SameButIndent c1 c2) (s t : HSt) (e : Ev) (h : s.core = t.core) :
+    (stepCore c1 s e).1.core = (stepCore c2 t e).1.core ∧ eraseH (stepCore c1 s e).2 = eraseH (stepCore c2 t e).2 := by
   simp only [HSt.core, Prod.mk.injEq] at h
   obtain ⟨h1, h2, h3, h4, h5, h6⟩ := h
   have e1 : c2.encoding = c1.encoding := by rw [hc]
@@ -184,12 +184,12 @@ theorem step_eraseH (c1 c2 : HtmlCfg) (hc : SameButIndent c1 c2) (s t : HSt) (e 
   have esp : c2.spaceBeforeClose = c1.spaceBeforeClose := by simp [HtmlCfg.spaceBeforeClose, e4]
   cases e with
   | startElement n a =>
-    simp only [step, startElement, ens]
+    simp only [stepCore, startElement, ens]
     cases hasNamespace c1 n
     · simp [htmlStartElement, HSt.core, h1, h2, h3, h4, h5, h6, e1, e2, eraseH_cons, HTok.isIns, Tok.isIns]
     · simp [xmlStartElement, HSt.core, h1, h2, h3, h4, h5, h6, eraseH_cons, HTok.isIns, Tok.isIns]
   | endElement n =>
-    simp only [step, endElement, h6]
+    simp only [stepCore, endElement, h6]
     cases t.hasNamespaceStack.headD false
     · simp only [Bool.false_eq_true, if_false, htmlEndElement, h1, h5]
       rcases t.elemStack with _ | ⟨_ | _, r⟩ <;>
@@ -200,33 +200,111 @@ theorem step_eraseH (c1 c2 : HtmlCfg) (hc : SameButIndent c1 c2) (s t : HSt) (e 
         simp [HSt.core, h2, h3, h4, h5, h6, esp, eraseH_cons, HTok.isIns, Tok.isIns] <;>
         (try (constructor <;> (split <;> split <;> simp)))
   | characters str =>
-    simp only [step, characters, h2, h3]
+    simp only [stepCore, characters, h2, h3]
     cases str.isEmpty <;> cases t.inScriptElemStack.headD false <;> cases t.isRawStack.headD false <;>
       simp [HSt.core, h1, h2, h3, h4, h5, h6, eraseH_cons, HTok.isIns, Tok.isIns]
   | cdata str =>
-    simp only [step, characters, h2, h3]
+    simp only [stepCore, characters, h2, h3]
     cases str.isEmpty <;> cases t.inScriptElemStack.headD false <;> cases t.isRawStack.headD false <;>
       simp [HSt.core, h1, h2, h3, h4, h5, h6, eraseH_cons, HTok.isIns, Tok.isIns]
   | raw str =>
-    simp only [step, charactersRaw, e5]
+    simp only [stepCore, charactersRaw, e5]
     cases c1.rawSetsPrevText <;>
       simp [HSt.core, h1, h2, h3, h4, h5, h6, eraseH_cons, HTok.isIns, Tok.isIns]
   | comment str =>
-    simp [step, comment, HSt.core, h1, h2, h3, h4, h5, h6, eraseH_cons, HTok.isIns, Tok.isIns]
+    simp [stepCore, comment, HSt.core, h1, h2, h3, h4, h5, h6, eraseH_cons, HTok.isIns, Tok.isIns]
   | pi tg d =>
-    simp only [step, procInstr]
+    simp only [stepCore, procInstr]
     cases hl : (t.elementLevel == 0) <;>
       simp [HSt.core, h1, h2, h3, h4, h5, h6, hl, eraseH_cons, HTok.isIns, Tok.isIns]
 
-theorem runFrom_eraseH (c1 c2 : HtmlCfg) (hc : SameButIndent c1 c2) (evs : List Ev) (s t : HSt) (h : s.core = t.core) :
+/-- the handlers below the test never touch `m_nextIsRaw` -/
+theorem stepCore_nextIsRaw (cfg : HtmlCfg) (st : HSt) (e : Ev) : (stepCore cfg st e).1.nextIsRaw = st.nextIsRaw := by
+  have wp : ∀ s : HSt, (writeParentTagEnd s).1.nextIsRaw = s.nextIsRaw := by
+    intro s; unfold writeParentTagEnd; split <;> rfl
+  have sib : ∀ (s : HSt) (b : Bool), (startIndentBlock cfg s b).1.nextIsRaw = s.nextIsRaw := by
+    intro s b; unfold startIndentBlock; split <;> (try split) <;> rfl
+  have eib : ∀ (s : HSt) (b : Bool), (endIndentBlock cfg s b).1.nextIsRaw = s.nextIsRaw := by
+    intro s b; unfold endIndentBlock; split <;> (try split) <;> rfl
+  have mb : ∀ (s : HSt) (fl : Nat), (metaBlock cfg s fl).1.nextIsRaw = s.nextIsRaw := by
+    intro s fl; unfold metaBlock; cases has fl flagHEADELEM <;> cases cfg.omitMeta <;> simp [wp]
+  cases e with
+  | startElement n a =>
+    simp only [stepCore, startElement]
+    cases hasNamespace cfg n
+    · simp [htmlStartElement, wp, sib, mb]
+    · simp [xmlStartElement, wp]
+  | endElement n =>
+    simp only [stepCore, endElement]
+    cases st.hasNamespaceStack.headD false
+    · simp only [Bool.false_eq_true, if_false, htmlEndElement]
+      rcases st.elemStack with _ | ⟨_ | _, r⟩ <;> simp [eib] <;> (repeat' split) <;> simp [eib]
+    · simp only [if_true, xmlEndElement]
+      rcases st.elemStack with _ | ⟨_ | _, r⟩ <;> simp <;> (repeat' split) <;> simp
+  | characters str =>
+    simp only [stepCore, characters]
+    (repeat' split) <;> simp [wp]
+  | cdata str =>
+    simp only [stepCore, characters]
+    (repeat' split) <;> simp [wp]
+  | raw str => simp only [stepCore, charactersRaw]; split <;> simp [wp]
+  | comment str => simp [stepCore, comment, wp]
+  | pi tg d => simp [stepCore, procInstr, wp]
+
+theorem step_eraseH (c1 c2 : HtmlCfg) (hc : SameButIndent c1 c2) (s t : HSt) (e : Ev) (h : s.core = t.core)
+    (hf : s.nextIsRaw = t.nextIsRaw) :
+    (step c1 s e).1.core = (step c2 t e).1.core ∧ (step c1 s e).1.nextIsRaw = (step c2 t e).1.nextIsRaw ∧
+    eraseH (step c1 s e).2 = eraseH (step c2 t e).2 := by
+  have core := fun (s t : HSt) (e : Ev) (h : s.core = t.core) (hf : s.nextIsRaw = t.nextIsRaw) =>
+    (show (stepCore c1 s e).1.core = (stepCore c2 t e).1.core ∧
+        (stepCore c1 s e).1.nextIsRaw = (stepCore c2 t e).1.nextIsRaw ∧
+        eraseH (stepCore c1 s e).2 = eraseH (stepCore c2 t e).2 from
+      ⟨(stepCore_eraseH c1 c2 hc s t e h).1, by rw [stepCore_nextIsRaw, stepCore_nextIsRaw, hf],
+       (stepCore_eraseH c1 c2 hc s t e h).2⟩)
+  have rawcase : ∀ str : Str,
+      ({ (stepCore c1 { s with nextIsRaw := false } (.raw str)).1 with isprevtext := true } : HSt).core =
+        ({ (stepCore c2 { t with nextIsRaw := false } (.raw str)).1 with isprevtext := true } : HSt).core ∧
+      ({ (stepCore c1 { s with nextIsRaw := false } (.raw str)).1 with isprevtext := true } : HSt).nextIsRaw =
+        ({ (stepCore c2 { t with nextIsRaw := false } (.raw str)).1 with isprevtext := true } : HSt).nextIsRaw ∧
+      eraseH (stepCore c1 { s with nextIsRaw := false } (.raw str)).2 =
+        eraseH (stepCore c2 { t with nextIsRaw := false } (.raw str)).2 := by
+    intro str
+    obtain ⟨a1, a2, a3⟩ := core { s with nextIsRaw := false } { t with nextIsRaw := false } (.raw str) h rfl
+    exact ⟨a1, a2, a3⟩
+  cases e with
+  | pi tg d =>
+    simp only [step]
+    split
+    · exact ⟨h, rfl, rfl⟩
+    · exact core s t _ h hf
+  | characters str =>
+    simp only [step, hf]
+    split
+    · exact rawcase str
+    · exact core s t _ h hf
+  | cdata str =>
+    simp only [step, hf]
+    split
+    · exact rawcase str
+    · exact core s t _ h hf
+  | startElement n a => exact core s t _ h hf
+  | endElement n => exact core s t _ h hf
+  | raw str => exact core s t _ h hf
+  | comment str => exact core s t _ h hf
+
+theorem runFrom_eraseH (c1 c2 : HtmlCfg) (hc : SameButIndent c1 c2) (evs : List Ev) (s t : HSt) (h : s.core = t.core)
+    (hf : s.nextIsRaw = t.nextIsRaw) :
     (runFrom c1 s evs).1.core = (runFrom c2 t evs).1.core ∧ eraseH (runFrom c1 s evs).2 = eraseH (runFrom c2 t evs).2 := by
   induction evs generalizing s t with
   | nil => exact ⟨h, rfl⟩
   | cons e es ih =>
     simp only [runFrom]
-    obtain ⟨a1, a2⟩ := step_eraseH c1 c2 hc s t e h
-    obtain ⟨b1, b2⟩ := ih _ _ a1
+    obtain ⟨a1, af, a2⟩ := step_eraseH c1 c2 hc s t e h hf
+    obtain ⟨b1, b2⟩ := ih _ _ a1 af
     exact ⟨b1, by simp [a2, b2]⟩
+
+theorem startDocument_nextIsRaw (c : HtmlCfg) : (startDocument c).1.nextIsRaw = false := by
+  unfold startDocument; split <;> rfl
 
 theorem serializeToks_eraseH (c1 c2 : HtmlCfg) (hc : SameButIndent c1 c2) (evs : List Ev) :
     eraseH (serializeToks c1 evs) = eraseH (serializeToks c2 evs) := by
@@ -238,24 +316,24 @@ theorem serializeToks_eraseH (c1 c2 : HtmlCfg) (hc : SameButIndent c1 c2) (evs :
     simp only [e4, e6]
     exact ⟨trivial, trivial⟩
   obtain ⟨h1, h2⟩ := hs
-  obtain ⟨_, r2⟩ := runFrom_eraseH c1 c2 hc evs _ _ h1
+  obtain ⟨_, r2⟩ := runFrom_eraseH c1 c2 hc evs _ _ h1 (by rw [startDocument_nextIsRaw, startDocument_nextIsRaw])
   have he : ∀ (c : HtmlCfg) (st : HSt), eraseH (endDocument c st) = [] := by
     intro c st; unfold endDocument; split <;> simp [eraseH_cons, HTok.isIns, Tok.isIns]
   simp only [serializeToks, eraseH_append, h2, r2, he]
 
 set_option linter.unusedSimpArgs false in
 /-- with indentation off nothing is inserted -/
-theorem step_noIns (c : HtmlCfg) (hd : c.doIndent = false) (s : HSt) (e : Ev) : eraseH (step c s e).2 = (step c s e).2 := by
+theorem stepCore_noIns (c : HtmlCfg) (hd : c.doIndent = false) (s : HSt) (e : Ev) : eraseH (stepCore c s e).2 = (stepCore c s e).2 := by
   have hi : ∀ st, shouldIndent c st = false := by intro st; simp [shouldIndent, hd]
   cases e with
   | startElement n a =>
-    simp only [step, startElement]
+    simp only [stepCore, startElement]
     cases hasNamespace c n
     · simp [htmlStartElement, startIndentBlock, metaBlock, hd, eraseH_cons, HTok.isIns, Tok.isIns]
       split <;> (try split) <;> (try split) <;> simp [eraseH_cons, HTok.isIns, Tok.isIns]
     · simp [xmlStartElement, hi, eraseH_cons, HTok.isIns, Tok.isIns]
   | endElement n =>
-    simp only [step, endElement]
+    simp only [stepCore, endElement]
     cases s.hasNamespaceStack.headD false
     · simp only [Bool.false_eq_true, if_false, htmlEndElement, endIndentBlock, hd]
       rcases s.elemStack with _ | ⟨_ | _, r⟩ <;> simp [eraseH_cons, HTok.isIns, Tok.isIns] <;>
@@ -263,18 +341,28 @@ theorem step_noIns (c : HtmlCfg) (hd : c.doIndent = false) (s : HSt) (e : Ev) : 
     · simp only [if_true, xmlEndElement, hi]
       rcases s.elemStack with _ | ⟨_ | _, r⟩ <;> simp [eraseH_cons, HTok.isIns, Tok.isIns]
   | characters str =>
-    simp only [step, characters, hi]
+    simp only [stepCore, characters, hi]
     cases str.isEmpty <;> cases s.inScriptElemStack.headD false <;> cases s.isRawStack.headD false <;>
       simp [eraseH_cons, HTok.isIns, Tok.isIns]
   | cdata str =>
-    simp only [step, characters, hi]
+    simp only [stepCore, characters, hi]
     cases str.isEmpty <;> cases s.inScriptElemStack.headD false <;> cases s.isRawStack.headD false <;>
       simp [eraseH_cons, HTok.isIns, Tok.isIns]
-  | raw str => simp [step, charactersRaw, eraseH_cons, HTok.isIns, Tok.isIns]
-  | comment str => simp [step, comment, hi, eraseH_cons, HTok.isIns, Tok.isIns]
+  | raw str => simp [stepCore, charactersRaw, eraseH_cons, HTok.isIns, Tok.isIns]
+  | comment str => simp [stepCore, comment, hi, eraseH_cons, HTok.isIns, Tok.isIns]
   | pi tg d =>
-    simp only [step, procInstr, hi]
+    simp only [stepCore, procInstr, hi]
     cases hl : (s.elementLevel == 0) <;> simp [hl, eraseH_cons, HTok.isIns, Tok.isIns]
+
+theorem step_noIns (c : HtmlCfg) (hd : c.doIndent = false) (s : HSt) (e : Ev) : eraseH (step c s e).2 = (step c s e).2 := by
+  cases e with
+  | pi tg d => simp only [step]; split; rfl; exact stepCore_noIns c hd s _
+  | characters str => simp only [step]; split; exact stepCore_noIns c hd _ _; exact stepCore_noIns c hd s _
+  | cdata str => simp only [step]; split; exact stepCore_noIns c hd _ _; exact stepCore_noIns c hd s _
+  | startElement n a => exact stepCore_noIns c hd s _
+  | endElement n => exact stepCore_noIns c hd s _
+  | raw str => exact stepCore_noIns c hd s _
+  | comment str => exact stepCore_noIns c hd s _
 
 theorem serializeToks_noIns (c : HtmlCfg) (hd : c.doIndent = false) (evs : List Ev) :
     eraseH (serializeToks c evs) = serializeToks c evs := by
@@ -337,17 +425,17 @@ def okAt (st : HSt) : Ev → Bool
 
 set_option linter.unusedSimpArgs false in
 set_option maxHeartbeats 1000000 in
-theorem step_hNoAdj_simple (cfg : HtmlCfg) (hraw : cfg.rawSetsPrevText = true) (st : HSt) (e : Ev) (p : Option Bool)
+theorem stepCore_hNoAdj_simple (cfg : HtmlCfg) (hraw : cfg.rawSetsPrevText = true) (st : HSt) (e : Ev) (p : Option Bool)
     (he : match e with | .startElement _ _ => False | .endElement _ => False | _ => True)
     (h : HInv st p) (hp : p ≠ some false) :
-    hNoAdjFrom p (step cfg st e).2 = true ∧ HInv (step cfg st e).1 (hLastFrom p (step cfg st e).2) ∧
-    hLastFrom p (step cfg st e).2 ≠ some false := by
-  obtain ⟨stack, ci, snl, pres, prev, pstack, inb, raws, scripts, first, level, props, nss⟩ := st
+    hNoAdjFrom p (stepCore cfg st e).2 = true ∧ HInv (stepCore cfg st e).1 (hLastFrom p (stepCore cfg st e).2) ∧
+    hLastFrom p (stepCore cfg st e).2 ≠ some false := by
+  obtain ⟨stack, ci, snl, pres, prev, pstack, inb, raws, scripts, first, level, props, nss, nr⟩ := st
   unfold HInv at h ⊢
   rcases p with _ | _ | _
   · cases e <;> simp at he <;> rcases stack with _ | ⟨_ | _, rest⟩ <;> cases snl <;> cases pres <;> cases prev <;>
       cases hd : cfg.doIndent <;>
-      simp_all [step, characters, charactersRaw, comment, procInstr, writeParentTagEnd, shouldIndent, indentToks,
+      simp_all [stepCore, characters, charactersRaw, comment, procInstr, writeParentTagEnd, shouldIndent, indentToks,
         hNoAdjFrom_cons, hNoAdjFrom, hLastFrom, hcls, clsOk, Tok.cls, Tok.isTextual, Tok.isIns] <;>
       (repeat' split) <;>
       simp_all [hNoAdjFrom_cons, hNoAdjFrom, hLastFrom, hcls, clsOk, Tok.cls, Tok.isTextual, Tok.isIns]
@@ -357,13 +445,13 @@ theorem step_hNoAdj_simple (cfg : HtmlCfg) (hraw : cfg.rawSetsPrevText = true) (
     subst h1; subst h2
     rcases stack with _ | ⟨_ | _, rest⟩
     · cases e <;> simp at he <;> cases snl <;> cases hd : cfg.doIndent <;>
-        simp_all [step, characters, charactersRaw, comment, procInstr, writeParentTagEnd, shouldIndent, indentToks,
+        simp_all [stepCore, characters, charactersRaw, comment, procInstr, writeParentTagEnd, shouldIndent, indentToks,
           hNoAdjFrom_cons, hNoAdjFrom, hLastFrom, hcls, clsOk, Tok.cls, Tok.isTextual, Tok.isIns] <;>
         (repeat' split) <;>
         simp_all [hNoAdjFrom_cons, hNoAdjFrom, hLastFrom, hcls, clsOk, Tok.cls, Tok.isTextual, Tok.isIns]
     · exact absurd rfl h3
     · cases e <;> simp at he <;> cases snl <;> cases hd : cfg.doIndent <;>
-        simp_all [step, characters, charactersRaw, comment, procInstr, writeParentTagEnd, shouldIndent, indentToks,
+        simp_all [stepCore, characters, charactersRaw, comment, procInstr, writeParentTagEnd, shouldIndent, indentToks,
           hNoAdjFrom_cons, hNoAdjFrom, hLastFrom, hcls, clsOk, Tok.cls, Tok.isTextual, Tok.isIns] <;>
         (repeat' split) <;>
         simp_all [hNoAdjFrom_cons, hNoAdjFrom, hLastFrom, hcls, clsOk, Tok.cls, Tok.isTextual, Tok.isIns]
@@ -376,7 +464,7 @@ theorem xml_hNoAdj (cfg : HtmlCfg) (st : HSt) (n : Str) (a : List (Str × Str)) 
       hLastFrom p (xmlStartElement cfg st n a).2 ≠ some false) ∧
     (hNoAdjFrom p (xmlEndElement cfg st n).2 = true ∧ HInv (xmlEndElement cfg st n).1 (hLastFrom p (xmlEndElement cfg st n).2) ∧
       hLastFrom p (xmlEndElement cfg st n).2 ≠ some false) := by
-  obtain ⟨stack, ci, snl, pres, prev, pstack, inb, raws, scripts, first, level, props, nss⟩ := st
+  obtain ⟨stack, ci, snl, pres, prev, pstack, inb, raws, scripts, first, level, props, nss, nr⟩ := st
   unfold HInv at h ⊢
   rcases p with _ | _ | _
   · constructor <;> rcases stack with _ | ⟨_ | _, rest⟩ <;> cases snl <;> cases pres <;> cases prev <;>
